@@ -28,3 +28,10 @@ prop("C01", [per.per_rules, qa.qa_partition], "R3 period offsets; R2 partition",
      filter={"R2.QA1": lambda o: o.key.startswith("QA1:cover")})
 
 prop("C06", [per.per_rules], "R3 period offsets (solver and simulator agree)")
+
+from lcmsa import rules_kernel as ker  # noqa: E402
+
+prop("C18", [ker.ker_argmax, ker.ker_discrete], "kernel agreement: arg-max primitives and discrete reduction")
+prop("C20", [ker.ker_logsumexp], "kernel agreement: log-sum-exp forms")
+prop("C15", [ker.ker_interp], "kernel agreement: interpolation kernel and coordinates")
+prop("C02", [ker.ker_argmax, ker.ker_simulate], "kernel agreement")
